@@ -166,7 +166,10 @@ Tick(kind, checkFails, o, pe) ==
         /\ (pe # 0 => doSend /\ IsCert(NextCert(r.db, pe)) /\ NextCert(r.db, pe).to = pe)   \* a prover cap only where it bites
         /\ ag' = s.ag /\ db' = s.db /\ histT' = s.ht
         /\ up' = ~s.crashed /\ ready' = (ready /\ ~s.crashed)
-  /\ Step([a |-> "tick", kind |-> kind, checkfail |-> checkFails, o |-> o, pe |-> pe])
+        \* the model's own prediction travels with the exported behaviour (conformance of this specification with the code is
+        \* measured on it: checks/aggsender_common.py, evidence field model_conformance)
+        /\ Step([a |-> "tick", kind |-> kind, checkfail |-> checkFails, o |-> o, pe |-> pe,
+                 exp |-> [sent |-> s.sent, h |-> IF s.sent THEN s.ag[Len(s.ag)].h ELSE -1]])
   /\ UNCHANGED <<l2, synced>>
 
 -----------------------------------------------------------------------------
